@@ -570,16 +570,14 @@ func (p *Proxy) handle(ctx *Context, conn net.Conn, brw *bufio.ReadWriter) error
 	err = res.Write(brw)
 	if err != nil {
 		log.Errorf("martian: got error while writing response back to client: %v", err)
-		if _, ok := err.(*trafficshape.ErrForceClose); ok {
-			closing = errClose
-		}
+		// The response was not written completely, so the connection is out of frame:
+		// close it instead of appending the next response to a truncated one.
+		closing = errClose
 	}
 	err = brw.Flush()
 	if err != nil {
 		log.Errorf("martian: got error while flushing response back to client: %v", err)
-		if _, ok := err.(*trafficshape.ErrForceClose); ok {
-			closing = errClose
-		}
+		closing = errClose
 	}
 	return closing
 }
